@@ -21,6 +21,7 @@ Import ListNotations.
 Open Scope nat_scope.
 Open Scope list_scope.
 Definition length {A} (l : list A) : nat := List.length l.   (* String.length shadows List.length otherwise *)
+Definition combine {A B} (l : list A) (m : list B) : list (A * B) := List.combine l m.   (* Model.Grid.combine shadows it *)
 """
 
 LAMS = [0.125, 0.5, 1.0, 2.0, 8.0, 32.0, 0.3, 10.0]
@@ -54,12 +55,13 @@ def gen_grid(rng, name, nterms, budget):
         if name == 'lam':
             return rng.choice(LAMS)
         if name == 'n_splines':
-            return rng.randint(4, 8)
+            return rng.randint(3, 8)
         return rng.randint(1, 3)          # spline_order
+    ndistinct = {'lam': len(LAMS), 'n_splines': 6, 'spline_order': 3}[name]
     encs = ['1d', '1d', '2d'] + (['lists', 'lists'] if nterms >= 2 else [])
     enc = rng.choice(encs)
     if enc == '1d':
-        k = rng.randint(2, min(4, max(2, budget)))
+        k = rng.randint(2, min(4, max(2, budget), ndistinct))
         xs = []
         while len(xs) < k:
             v = val()
@@ -322,6 +324,10 @@ def evaluate(res, cfg):
     per_param = [grid_values(grids_eff[nm], k) for nm in eff_names]
     enum = list(itertools.product(*per_param))
     returned = list(r.items())
+    if cfg['fitted'] and returned:
+        # the first key is the searched object itself; with keep_best it has meanwhile received the attributes of the
+        # best model, so its state when it was scored is the pre-call copy g0
+        returned[0] = (g0, returned[0][1])
     cand_models = returned[1:] if cfg['fitted'] else returned
     outcomes, cands_coq = [], []
     pos = 0
